@@ -631,6 +631,35 @@ class Discharger:
                 return 'R10: ReferenceContents::BDD is never constructed in the workspace'
         return None
 
+    # R16: an explicit panic on a failed write to standard output is what println! does
+    def R16(self, s):
+        if s.kind != 'call' or s.what != 'panic': return None
+        t = getattr(s.crate, 'ithir', s.crate.thir).get(s.fn)
+        if t is None: return None
+        def is_panic(x): return x['k'] == 'Call' and (callee_name(x) or '').startswith(('core::panicking', 'std::rt::panic', 'std::rt::begin_panic', 'std::panicking'))
+        panics = [x for x in walk(t['body']) if is_panic(x)]
+        def stdout_write(e):
+            while e['k'] in ('Use', 'NeverToAny', 'Scope'): e = e.get('source') or e.get('value')
+            if e['k'] != 'Call' or __import__('facts').callee_decl(e) != 'std::io::Write::write_fmt' or not e['args']: return False
+            a = e['args'][0]
+            while True:
+                if 'std::io::Stdout' in str((a.get('ty') or {}).get('s')) and 'Vec' not in str((a.get('ty') or {}).get('s')): return True
+                if a['k'] in ('Borrow', 'Deref', 'Use'): a = a.get('arg') or a.get('source'); continue
+                return False
+        def err_pat(p):
+            while p['k'] in ('Deref', 'DerefPattern'): p = p['sub']
+            return p['k'] == 'Variant' and p['variant'] == 'Err' and canon(p['adt']) == 'std::result::Result'
+        covered = set()
+        for e in walk(t['body']):
+            if e['k'] == 'If' and e['cond']['k'] == 'Let' and err_pat(e['cond']['pat']) and stdout_write(e['cond']['expr']):
+                covered.update(id(x) for x in walk(e['then']))
+            if e['k'] == 'Match' and e.get('source') in (None, 'Normal') and stdout_write(e['scrutinee']):
+                for a in e['arms']:
+                    if err_pat(a['pat']) and a.get('guard') is None: covered.update(id(x) for x in walk(a['body']))
+        if panics and all(id(x) in covered for x in panics):
+            return 'R16: the panic is the failure arm of a write to standard output (`if let Err(e) = writeln!(stdout, ..) { panic!(..) }`): the outcome println! has'
+        return None
+
     # R11: RefCell accesses cannot conflict (engine G)
     def R11(self, s):
         if not s.what.startswith('RefCell::'): return None
